@@ -10,3 +10,10 @@ else
         --target .deps hypothesis || exit 2
 fi
 PYTHONPATH=.deps "$PY" -c "import hypothesis; print('hypothesis', hypothesis.__version__)"
+# atheris (coverage-guided campaigns of the thorough tier) is optional: without it those campaigns are skipped
+if ! PYTHONPATH=.deps "$PY" -c "import atheris" 2>/dev/null; then
+    mkdir -p .deps
+    PIP_NO_INDEX=1 "$PY" -m pip install --no-index --find-links /opt/veriftools/wheels \
+        --target .deps atheris >/dev/null 2>&1 || echo "atheris not installable: coverage-guided campaigns will be skipped"
+fi
+PYTHONPATH=.deps "$PY" -c "import atheris; print('atheris ok')" 2>/dev/null || true
